@@ -42,7 +42,9 @@ def main():
     rc = 0
     for prop in props:
         mod = importlib.import_module(f"checks.{prop.lower()}")
-        cases = [{"src": s, "ops": p} for s in srcs for p in progs]
+        import os
+        extra = json.loads(os.environ.get("TRY_EXTRA", "{}"))  # e.g. TRY_EXTRA='{"method": "disk"}' for C09
+        cases = [{"src": s, "ops": p, **extra} for s in srcs for p in progs]
         res = pmap(mod.evaluate, cases, chunk=max(1, len(cases) // 64))
         counts = {}
         for case, r in res:
